@@ -34,6 +34,9 @@ type NodeOpts struct {
 	MaxInflightMsgs             int
 	MaxInflightBytes            uint64
 	SnapMode                    SnapMode
+	// LazySync: writes that need no sync (MustSync=false, or a
+	// MsgStorageAppend without responses) are left un-fsynced.
+	LazySync bool
 	// Timeout is the value written into the randomized election timeout
 	// before every Tick; in [ElectionTick, 2*ElectionTick-1].
 	Timeout int
@@ -63,6 +66,9 @@ func (o NodeOpts) String() string {
 	}
 	if o.LeaseRead {
 		f = append(f, "lease")
+	}
+	if o.LazySync {
+		f = append(f, "lazysync")
 	}
 	lim := func(v uint64) string {
 		if v == math.MaxUint64 {
